@@ -177,6 +177,31 @@ def run(res, tier, replay):
                 if len({r.returncode == 0, rp.returncode == 0, rx.returncode == 0}) != 1:
                     bad("exit status differs between modes on the same damaged cabinet: -t %d, -p %d, extract %d" % (r.returncode, rp.returncode, rx.returncode), "damaged copy of a.cab (hex): %s" % bytes(b).hex(), "c17:exit-modes")
             shutil.rmtree(work, ignore_errors=True)
+        # directed: members stored with DOS directory separators; -F patterns are matched against the name every mode prints and creates
+        # (docs/guide.txt), so a pattern written that way selects the same members in -l, -t, -p and extraction
+        work = os.path.join(base, "wdos"); os.makedirs(work)
+        mem = [cabfmt.Member(b"docs\\guide.txt", data=b"guide text\n" * 7), cabfmt.Member(b"docs\\sub\\x.bin", data=bytes(range(200))), cabfmt.Member(b"top.txt", data=b"top\n"),
+               cabfmt.Member(b"Docs\\Other.TXT", data=b"other\n" * 3)]
+        for m in mem: m.length = len(m.data); m.date, m.time, _ = valid_dt(random.Random(17))
+        fo = cabfmt.Folder(("mszip",), mem); cp = os.path.join(work, "dos.cab"); open(cp, "wb").write(cabfmt.build_single([fo], random.Random(17)))
+        shown = lambda m: m.name.decode().replace("\\", "/")
+        for pat in ("docs/*", "docs/guide.txt", "*/x.bin", "DOCS/*.txt", "top.txt", "docs\\\\*"):
+            sel = [m for m in mem if fnmatch.fnmatchcase(shown(m).lower(), pat.lower())]
+            detail = "cabinet (hex): %s\npattern: %s\nmembers as shown: %s" % (open(cp, "rb").read().hex(), pat, [shown(m) for m in mem])
+            r = subprocess.run([exe, "-p", "-q", "-F", pat, cp], capture_output=True, env=env, timeout=60); nruns += 1
+            if r.stdout != b"".join(m.data for m in sel) or r.returncode != 0: bad("-p -F '%s' wrote %d bytes, expected the %d bytes of %s" % (pat, len(r.stdout), sum(len(m.data) for m in sel), [shown(m) for m in sel]), detail, "c17:dos-pipe")
+            r = subprocess.run([exe, "-l", "-F", pat, cp], capture_output=True, env=env, timeout=60); nruns += 1
+            got = [l.split("| ", 2)[-1] for l in r.stdout.decode("latin1").split("\n") if re.match(r"^\s*\d+ \|", l)]
+            if got != [shown(m) for m in sel]: bad("-l -F '%s' lists %s, expected %s" % (pat, got, [shown(m) for m in sel]), detail, "c17:dos-list")
+            r = subprocess.run([exe, "-t", "-F", pat, cp], capture_output=True, env=env, timeout=60); nruns += 1
+            got = re.findall(r"^  (\S+)  OK\s+([0-9a-f]{32})$", r.stdout.decode("latin1"), flags=re.M)
+            if got != [(shown(m), hashlib.md5(m.data).hexdigest()) for m in sel]: bad("-t -F '%s' tests %s, expected %s" % (pat, [g[0] for g in got], [shown(m) for m in sel]), detail, "c17:dos-test")
+            dd = os.path.join(work, "d%d" % nruns); r = subprocess.run([exe, "-q", "-F", pat, "-d", dd, cp], capture_output=True, env=env, timeout=60); nruns += 1
+            made = sorted(os.path.relpath(os.path.join(dp, f_), dd) for dp, _, fs in os.walk(dd) for f_ in fs) if os.path.isdir(dd) else []
+            if made != sorted(shown(m) for m in sel) or any(open(os.path.join(dd, shown(m)), "rb").read() != m.data for m in sel if shown(m) in made):
+                bad("extraction with -F '%s' created %s, expected %s" % (pat, made, sorted(shown(m) for m in sel)), detail, "c17:dos-extract")
+            res.evaluations += 4; res.nontrivial.add(("dos", pat)); res.count("dos-names")
+        shutil.rmtree(work, ignore_errors=True)
     finally:
         shutil.rmtree(base, ignore_errors=True)
     res.oblige("search: %d runs of the cabextract binary agree with the generated archives in every mode" % nruns, nbad == 0)
